@@ -316,7 +316,22 @@ mutual
 /-- `asm` is obtainable from the non-propagating reference `ref` by replacing subtrees with
 `null` (each on the path of a delivered error), leaving out keys (each below a fragment
 completed with errors) and cutting list tails (each the list of a stream completed with errors).
-`p` is reversed current path. -/
+`p` is reversed current path.
+
+What `approx` is *not*: it is a relation between the reference and data that has already been
+assembled, so it is only consulted after every `apply` of the payload stream has succeeded.  The
+known finding `workqueue-prunes-promoted-group-with-undelivered-shared-task` never gets that far:
+the work queue drops a promoted deferred fragment F2 as "empty" (its only task — the object
+`hero.friend`, shared with the still pending fragment L1 — has completed but has not been
+delivered), announces F2's child N at path `["hero","friend"]` and delivers `{id}` for it while the
+client's data is still `{hero: {}}`.  `apply` rejects that entry with `targetMissing`: the format
+says to merge into the object at `pending[id].path ++ subPath`, and there is no such object yet.
+Nothing was withheld and nothing was nulled — every field of the reference is eventually sent, no
+error is reported, no fragment is completed with errors — so none of `approx`'s three allowances
+(null on the path of a delivered error, key below a fragment completed with errors, list tail of a
+stream completed with errors) is even in play; the defect is in the *order* of delivery (a child
+piece before the piece that creates its target), which is a failure of the first clause's
+"applying the subsequent payloads as the format prescribes", not an approximation. -/
 def approx (ev : Evidence) (p : Path) : J → J → Bool
   | .null, .null => true
   | _, .null => nullJustified ev p.reverse
